@@ -154,6 +154,7 @@ func Run(c *ev.Ctx) {
 		st := e1.Run(cfg)
 		st.Report(c, ph.Name+"_")
 	}
+	runBlocking(c)
 	c.Set("queries_instantiated", totalQ)
 	c.Set("rule", "every transition of a BFS over the write alphabet x every instantiated read query: (index, result, watch set) before and after; result changed => index strictly larger and a watch channel fired; index never decreases except on tombstone reap")
 	c.Sample(map[string]any{"phases": phases})
